@@ -323,3 +323,179 @@ Proof.
   - destruct (mk_task_method a0 (length (units a0)) (map (fun m0 => fix_id (j_id m0)) [m]) m) as (M1 & M2).
     repeat split; auto; apply mk_task_retained; auto.
 Qed.
+
+(** * C08.8 restart *)
+Definition started (s : state) : state :=
+  s <| running := true |> <| starts ::= S |> <| stop_err := None |> <| work_closed := false |>
+    <| wg := 2 |> <| rd := RIdle |> <| dp := DAtNext |> <| ch_in := [] |>.
+
+Lemma find_unit_none_all (p : nat -> unit_ -> bool) : forall l i,
+  (forall k x, nth_error l k = Some x -> p (i + k) x = false) -> find_unit p i l = None.
+Proof.
+  induction l as [|y r IH]; intros i H; cbn; auto.
+  pose proof (H 0 y eq_refl) as H0. rewrite Nat.add_0_r in H0. rewrite H0. apply IH.
+  intros k x E. replace (S i + k) with (i + S k) by lia. apply H. auto.
+Qed.
+
+Record fresh_fields (c : config) (s' : state) : Prop := {
+  ff_running : running s' = true;
+  ff_err : stop_err s' = None;
+  ff_wc : work_closed s' = false;
+  ff_wg : wg s' = 2;
+  ff_rd : rd s' = RIdle;
+  ff_dp : dp s' = DAtNext;
+  ff_chin : ch_in s' = [];
+  ff_inq : inq s' = [];
+  ff_used : used s' = [];
+  ff_wait : sem_wait s' = [];
+  ff_free : sem_free s' = cf_K c;
+  ff_nbar : nbar s' = 0;
+  ff_crash : crash s' = None;
+  ff_cfg : c_K s' = cf_K c /\ c_push s' = cf_push c /\ c_builtin s' = cf_builtin c /\ c_methods s' = cf_methods c /\
+           c_unblock s' = cf_unblock c;
+  ff_units : forall u un, nth_error (units s') u = Some un -> u_st un = UFinished;
+  ff_tasks : forall k t, nth_error (tasks s') k = Some t -> finished t = true;
+  (* callbacks of the previous run that are still registered are dead: cancelled, their watcher about to complete them *)
+  ff_calls : forall id i, In (id, i) (calls s') ->
+      exists cb0, nth_error (cbs s') i = Some cb0 /\ cb_id cb0 = id /\ cb_cancelled cb0 = true /\ cb_watch cb0 = WParked /\
+                  cb_slot cb0 = None
+}.
+
+Definition cfgp (s : state) := (c_K s, c_push s, c_builtin s, c_methods s, c_unblock s).
+
+Lemma nontask_cfgp s s' : nontask s' = nontask s -> cfgp s' = cfgp s.
+Proof.
+  intros H. apply nontask_fields in H. destruct H as (H1 & H2 & H3 & H4 & H5 & _).
+  unfold cfgp. rewrite H1, H2, H3, H4, H5. reflexivity.
+Qed.
+
+Lemma stop_locked_cfgp k s s' os : stop_locked k s = (s', os) -> cfgp s' = cfgp s.
+Proof.
+  intros H. destruct (running s) eqn:Rn.
+  - apply stop_locked_run in H as [_ P]; auto. destruct (sr_cfg _ _ _ P) as (H1 & H2 & H3 & H4 & H5).
+    unfold cfgp. rewrite H1, H2, H3, H4, H5. reflexivity.
+  - apply stop_locked_spec in H as [(_ & -> & _)|(Rn' & _)]; [reflexivity|congruence].
+Qed.
+
+Lemma sbc_cfgp s s' : same_but_cb s s' -> cfgp s' = cfgp s.
+Proof. unfold same_but_cb. intros ->. reflexivity. Qed.
+
+Lemma raw_cfgp s l s' os : step_raw s l = Some (s', os) -> cfgp s' = cfgp s.
+Proof.
+  intros H. destruct l; unfold step_raw in H.
+  - destruct (negb (running s) && (wg s =? 0)); [|discriminate]. injection H as <- <-. reflexivity.
+  - injection H as <- <-. reflexivity.
+  - injection H as <- <-. reflexivity.
+  - destruct (find_idx _ 0 (tasks s)) as [k|]; [|discriminate].
+    destruct (nth_error (tasks s) k) as [t|]; [|discriminate]. injection H as <- <-. reflexivity.
+  - injection H as <- <-. reflexivity.
+  - injection H as <- <-. reflexivity.
+  - destruct (c_push s); injection H as <- <-; reflexivity.
+  - injection H as <- <-. reflexivity.
+  - destruct (find_idx _ 0 (cbs s)); injection H as <- <-; reflexivity.
+  - (* LRelRead *)
+    destruct (rd s) as [| |f|] eqn:Rd; try discriminate. injection H as H.
+    assert (Msg : forall i, (if negb (running s) then (s <| rd := RExited |> <| wg ::= pred |>, [])
+           else match i with
+           | InBad => let '(s', os) := push_error s ParseError s_invalid_value in (s' <| rd := RIdle |>, os)
+           | InMsgs _ [] => let '(s', os) := push_error s InvalidRequest s_empty_batch in (s' <| rd := RIdle |>, os)
+           | InMsgs b ms =>
+               let '(s1, keep, os) := filter_batch ms s [] [] in
+               match keep with
+               | [] => (s1 <| rd := RIdle |>, os)
+               | _ => let s2 := s1 <| inq ::= fun q => q ++ [(b, keep)] |> <| rd := RIdle |> in
+                      if work_closed s2 && (length (inq s2) =? 1)
+                      then (s2 <| crash := Some CrSendOnClosedWork |>, os ++ [OCrash CrSendOnClosedWork])
+                      else (s2, os)
+               end
+           end) = (s', os) -> cfgp s' = cfgp s).
+    { intros i H'. destruct (negb (running s)); [injection H' as <- <-; reflexivity|].
+      destruct i as [|b ms]; [cbn in H'; injection H' as <- <-; reflexivity|].
+      destruct ms as [|m ms]; [cbn in H'; injection H' as <- <-; reflexivity|].
+      pose proof (filter_batch_sbc (m :: ms) s [] []) as F.
+      destruct (filter_batch (m :: ms) s [] []) as [[s1 keep] os1]. cbn [fst] in F. apply sbc_cfgp in F.
+      destruct keep as [|k0 kr]; [injection H' as <- <-; exact F|]. cbv zeta in H'.
+      match type of H' with (if ?c then _ else _) = _ => destruct c end; injection H' as <- <-; exact F. }
+    destruct f as [i|i|k]; [apply (Msg i); exact H|apply (Msg i); exact H|].
+    cbn in H. destruct (stop_locked k s) as [s0 os0] eqn:St. injection H as <- <-.
+    apply stop_locked_cfgp in St. exact St.
+  - destruct (dp s); try discriminate. injection H as <- <-.
+    unfold dequeue. destruct (inq s) as [|[b ms] q]; [destruct (running s)|]; reflexivity.
+  - destruct (dp s); try discriminate. injection H as <- <-. reflexivity.
+  - destruct (nth_error (tasks s) k) as [t|]; [|discriminate].
+    destruct (t_st t); try discriminate.
+    destruct (negb (unit_running s t)); [discriminate|].
+    destruct (t_cancelled t); [injection H as <- <-; reflexivity|].
+    destruct (sem_free s); [injection H as <- <-; reflexivity|].
+    destruct (sem_wait s); [|injection H as <- <-; reflexivity].
+    destruct (t_builtin t); injection H as <- <-; reflexivity.
+  - destruct (nth_error (tasks s) k) as [t|] eqn:E; [|discriminate].
+    destruct (t_st t) eqn:St; try discriminate.
+    set (s0 := set_task k (fun t => t <| t_st := TDone (body_of_outcome t o) |>) s <| sem_free ::= S |>) in *.
+    pose proof (nontask_grant (S (length (sem_wait s0))) s0 []) as G.
+    destruct (grant (S (length (sem_wait s0))) s0 []) as [s2 os2]. cbn [fst] in G.
+    apply nontask_cfgp in G.
+    destruct (is_note t); [destruct (nbar s2)|]; injection H as <- <-; exact G.
+  - destruct (nth_error (units s) u) as [un|]; [|discriminate].
+    destruct (u_st un); try discriminate.
+    pose proof (nontask_cfgp _ _ (nontask_release (unit_tasks s u) s)) as G.
+    destruct (u_chok un); cbn in H; injection H as <- <-; exact G.
+  - destruct (find_op n (ops s)) as [[n0|n0 id|n0 w m p]|]; try discriminate.
+    destruct (stop_locked SCStop (s <| ops ::= del_op n |>)) as [s0 os0] eqn:St. injection H as <- <-.
+    apply stop_locked_cfgp in St. exact St.
+  - destruct (find_op n (ops s)) as [[n0|n0 id|n0 w m p]|]; try discriminate.
+    injection H as <- <-. destruct (assoc id _) as [owner|]; [|reflexivity].
+    rewrite (nontask_cfgp _ _ (nontask_cancel owner (s <| ops ::= del_op n |>))). reflexivity.
+  - destruct (find_op n (ops s)) as [[| |n0 wantid m p]|]; try discriminate.
+    cbn in H. destruct (running s); cbn in H; [|injection H as <- <-; reflexivity].
+    destruct wantid; [|injection H as <- <-; reflexivity].
+    destruct (send_fail s); [injection H as <- <-; reflexivity|].
+    destruct (find _ (ended s)) as [[? ?]|]; injection H as <- <-; reflexivity.
+  - destruct (nth_error (cbs s) c) as [cb0|]; [|discriminate].
+    destruct (cb_watch cb0); try discriminate.
+    cbn in H.
+    destruct (assoc (cb_id cb0) (calls s)) as [j|]; [|injection H as <- <-; reflexivity].
+    destruct (cb_slot cb0); [injection H as <- <-; reflexivity|].
+    destruct (j =? c); [|injection H as <- <-; reflexivity].
+    destruct (match cb_ctx cb0 with Some WDeadline => _ | _ => _ end) as [code msg].
+    injection H as H. unfold complete_cb in H. cbn in H.
+    destruct (nth_error (upd_nth c _ (cbs s)) c); injection H as <- <-; reflexivity.
+Qed.
+
+Lemma cfg_const c s : reachf c s -> cfgp s = (cf_K c, cf_push c, cf_builtin c, cf_methods c, cf_unblock c).
+Proof.
+  induction 1 as [|s l s' os R IH Cr H|s s' os R IH H].
+  - reflexivity.
+  - rewrite (raw_cfgp _ _ _ _ H). exact IH.
+  - rewrite <- IH. apply settle1_inv in H. destruct H; try reflexivity.
+    unfold dequeue. destruct (inq s) as [|[b ms] q]; [destruct (running s)|]; reflexivity.
+Qed.
+
+Theorem restart_fresh c s : reach c s -> wg s = 0 -> running s = false ->
+  step s LStart = Some (started s, []) /\ fresh_fields c (started s) /\
+  tasks (started s) = tasks s /\ units (started s) = units s /\ cbs (started s) = cbs s /\
+  call_id (started s) = call_id s /\ starts (started s) = S (starts s) /\ closes (started s) = closes s.
+Proof.
+  intros R Z Rn. pose proof (reach_reachf _ _ R) as Rf.
+  pose proof (idle_all_done _ _ Rf Z) as A. pose proof (no_crash _ _ R) as Cr.
+  assert (St : step s LStart = Some (started s, [])).
+  { unfold step. rewrite Cr. unfold step_raw. rewrite Rn, Z. cbn [negb andb Nat.eqb]. fold (started s).
+    change (crash (started s)) with (crash s). rewrite Cr.
+    assert (S1 : settle1 (started s) = None).
+    { unfold settle1. cbn.
+      rewrite find_unit_none_all.
+      - rewrite andb_false_r. reflexivity.
+      - intros k x E. unfold unit_complete. cbn in E. rewrite (ad_units _ A _ _ E). reflexivity. }
+    unfold settle_fuel. cbn [settle Nat.add]. rewrite S1. reflexivity. }
+  split; auto. split; [|repeat split].
+  pose proof (cfg_const _ _ Rf) as Cf. unfold cfgp in Cf. injection Cf as C1 C2 C3 C4 C5.
+  destruct (SrvC06.inv_reachf _ _ Rf) as [[W0 _] _].
+  constructor; cbn; auto; try apply A.
+  - (* all slots are free *)
+    pose proof (SrvC06.wf_sem _ _ _ _ W0) as Sm. rewrite C1 in Sm.
+    rewrite (countb_false SrvC06.holds (tasks s)) in Sm; [lia|].
+    intros t Ht. apply In_nth_error in Ht as (k & E). pose proof (ad_tasks _ A _ _ E) as F.
+    unfold SrvC06.holds, finished in *. destruct (t_st t); auto; discriminate.
+  - intros id i Hin. destruct (ip_reg _ (inv_push_reachf _ _ Rf) _ _ Hin) as (cb0 & E & Ei & Sl & _ & Wt & _ & Cn).
+    specialize (Cn Rn). rewrite Cn in Wt. exists cb0. auto.
+Qed.
